@@ -25,6 +25,9 @@ EXECUTING probes on both sides of the boundary (DESIGN.md section 4, C20):
             Linked against the ASan/UBSan-instrumented library and run with the ASan runtime preloaded.
             Build stages: probe + equivalence module -> probe alone (equivalence reported as not checked,
             inconclusive) -> declarations only (lib.rs itself does not compile).
+ Other targets (no execution): simulated_targets() re-executes a layout probe under compiler predefines the headers consult;
+            cross_targets() lets clang -fsyntax-only --target=<triple> evaluate static assertions (C rendering of every mirror
+            and foreign declaration against the current headers) for 17 foreign data models - LLP64, ILP32, big-endian, 16-bit.
 """
 import os, re, json, subprocess, shutil, time, hashlib
 
@@ -767,6 +770,27 @@ def parse_build_rs(path):
 NHIST = dict(quick=300, thorough=4000)  # histories per struct and real width
 
 
+def feature_sets(brs_path):
+    """[(tag, width of `real` in the binding, the -D flags build.rs (cc branch) passes to the C compiler for that feature set)] for the
+    default feature set (f64) and the `float` feature (f32), read from the make.define(...) statements of build.rs and the
+    #[cfg(feature = "float")] attributes in front of them."""
+    brs = strip_comments(open(brs_path).read()) if os.path.exists(brs_path) else ''
+    feats = []
+    for float_on, tag, want in ((False, 'f64', 8), (True, 'f32', 4)):
+        defs = []
+        for m in re.finditer(r'((?:#\[cfg\([^\]]*\)\]\s*)*)make\.define\(\s*"(\w+)"\s*,\s*(?:Some\()?"?(\w+)"?\)?\s*\)', brs):
+            attrs = m.group(1)
+            on = True
+            if 'not(feature = "float")' in attrs:
+                on = not float_on
+            elif 'feature = "float"' in attrs:
+                on = float_on
+            if on and m.group(2).startswith('A_'):
+                defs.append('-D%s' % m.group(2) if m.group(3) == 'None' else '-D%s=%s' % (m.group(2), m.group(3)))
+        feats.append((tag, want, defs))
+    return feats
+
+
 def simulated_targets(ctx, outdir, viols, stats, brs_path):
     """The headers may consult macros that the COMPILER predefines for its target (architecture, FPU, ABI) - none of which a run on
     this host ever varies. For every such macro that the public headers test in a preprocessor conditional and that this host's gcc
@@ -808,20 +832,7 @@ def simulated_targets(ctx, outdir, viols, stats, brs_path):
         for t in structs:
             f.write('    printf("struct %s %%zu %%zu\\n", sizeof(struct %s), _Alignof(struct %s));\n' % (t, t, t))
         f.write('    return 0;\n}\n')
-    brs = strip_comments(open(brs_path).read()) if os.path.exists(brs_path) else ''
-    feats = []
-    for float_on, tag, want in ((False, 'f64', 8), (True, 'f32', 4)):
-        defs = []
-        for m in re.finditer(r'((?:#\[cfg\([^\]]*\)\]\s*)*)make\.define\(\s*"(\w+)"\s*,\s*(?:Some\()?"?(\w+)"?\)?\s*\)', brs):
-            attrs = m.group(1)
-            on = ('feature = "float"' in attrs and 'not(' not in attrs) if 'float' in attrs else True
-            if 'not(feature = "float")' in attrs:
-                on = not float_on
-            elif 'feature = "float"' in attrs:
-                on = float_on
-            if on and m.group(2).startswith('A_'):
-                defs.append('-D%s=%s' % (m.group(2), m.group(3)))
-        feats.append((tag, want, defs))
+    feats = feature_sets(brs_path)
 
     def probe(tag, defs, extra, name):
         exe = os.path.join(odir, 'layout-%s-%s' % (tag, name))
@@ -869,6 +880,529 @@ def simulated_targets(ctx, outdir, viols, stats, brs_path):
                 viols.append(dict(key='abi/simulated-target/%s/%s/size-or-alignment-differs-from-this-host' % (name, item), config=tag,
                                   msg='with the compiler predefine %s=%d (a target property the headers consult; flags of build.rs for %s: %s) %d of %d sizes/alignments differ from the ones the Rust mirrors were written for, e.g. "%s" becomes "%s"'
                                       % (name, v, tag, ' '.join(defs) or 'none', len(diff), len(base.splitlines()), diff[0][0] if diff else '', diff[0][1] if diff else '')))
+
+
+# ------------------------------------------------------------------ cross-target monitor (compile-time, clang as a cross front end)
+CROSS_REFERENCE = 'x86_64-unknown-linux-gnu'  # this host's data model: validates the C rendering of the Rust types against the executed host probes
+CROSS_TARGETS = [
+    # (triple, name of the back end in `clang -print-targets`, extra flags the cc crate passes for the Rust target of that name)
+    (CROSS_REFERENCE, 'x86-64', []),
+    ('x86_64-pc-windows-msvc', 'x86-64', []),          # LLP64: long 32 bits, pointers 64
+    ('x86_64-pc-windows-gnu', 'x86-64', []),           # LLP64
+    ('i686-unknown-linux-gnu', 'x86', []),             # ILP32, 4-byte aligned double / long long in structs
+    ('armv7-unknown-linux-gnueabihf', 'arm', []),      # ILP32, 8-byte aligned 64-bit types
+    ('aarch64-unknown-linux-gnu', 'aarch64', []),
+    ('riscv32-unknown-elf', 'riscv32', []),
+    ('riscv64-unknown-linux-gnu', 'riscv64', []),
+    ('powerpc64-unknown-linux-gnu', 'ppc64', []),      # big-endian LP64
+    ('wasm32-unknown-unknown', 'wasm32', []),
+    ('thumbv7em-none-eabihf', 'thumb', ['-march=armv7e-m', '-mfpu=fpv4-sp-d16', '-mfloat-abi=hard']),  # single-precision FPU only
+    # further data models that cost one more syntax-only compile each
+    ('i686-pc-windows-msvc', 'x86', []),               # ILP32 with 8-byte aligned double / long long
+    ('aarch64-pc-windows-msvc', 'aarch64', []),        # LLP64
+    ('aarch64-apple-darwin', 'aarch64', []),
+    ('x86_64-unknown-linux-gnux32', 'x86-64', []),     # ILP32 on a 64-bit machine
+    ('s390x-unknown-linux-gnu', 'systemz', []),        # big-endian LP64
+    ('m68k-unknown-linux-gnu', 'm68k', []),            # nothing aligned to more than 2 bytes
+    ('msp430-none-elf', 'msp430', []),                 # 16-bit int and pointers (the A_SIZE_POINTER == 2 arms of a.h)
+]
+
+# The Rust reference's target-independent definition of the primitive types, rendered in C with the compiler's own exact-width /
+# pointer-width predefines (no header of the target's C library is needed)
+RS_PRIM = {
+    'usize': '__UINTPTR_TYPE__', 'isize': '__INTPTR_TYPE__',
+    'u8': '__UINT8_TYPE__', 'u16': '__UINT16_TYPE__', 'u32': '__UINT32_TYPE__', 'u64': '__UINT64_TYPE__',
+    'i8': '__INT8_TYPE__', 'i16': '__INT16_TYPE__', 'i32': '__INT32_TYPE__', 'i64': '__INT64_TYPE__',
+    'f32': 'float', 'f64': 'double', 'c_float': 'float', 'c_double': 'double', 'char': '__UINT32_TYPE__',
+    'c_int': 'int', 'c_uint': 'unsigned int', 'c_short': 'short', 'c_ushort': 'unsigned short', 'c_long': 'long', 'c_ulong': 'unsigned long',
+    'c_longlong': 'long long', 'c_ulonglong': 'unsigned long long', 'c_char': 'char', 'c_schar': 'signed char', 'c_uchar': 'unsigned char',
+}
+RS_WIDTH = {'u8': 1, 'i8': 1, 'u16': 2, 'i16': 2, 'u32': 4, 'i32': 4, 'char': 4, 'u64': 8, 'i64': 8, 'f32': 4, 'f64': 8, 'c_float': 4, 'c_double': 8, 'bool': 1}
+
+
+class RsRender:
+    """C rendering of the Rust types the binding uses in mirrored structs and foreign declarations. Every type becomes a typedef
+    (`rs_t_<n>`), built bottom-up, so that pointers to arrays, function pointers taking function pointers etc. need no declarator
+    gymnastics; a mirrored #[repr(C)] struct becomes `struct rs_<name>` with the renderings of its fields in declaration order -
+    the C compiler then applies the target's own layout algorithm, which is what repr(C) promises."""
+
+    def __init__(self, structs, real):
+        self.structs = {s['name']: s for s in structs}
+        self.real = real
+        self.out = ['#ifdef __cplusplus', 'typedef bool rs_bool;', '#else', 'typedef _Bool rs_bool;', '#endif',
+                    'typedef %s rs_real; /* pub type real = %s */' % ('float' if real == 4 else 'double', 'f32' if real == 4 else 'f64')]
+        for k in sorted(RS_PRIM):
+            self.out.append('typedef %s rs_%s;' % (RS_PRIM[k], k))
+        for n in self.structs:
+            self.out.append('struct rs_%s;' % n)
+        self.cache = {'bool': 'rs_bool', 'real': 'rs_real', '()': 'void', '!': 'void', 'c_void': 'void'}
+        self.cache.update({k: 'rs_' + k for k in RS_PRIM})
+        self.done, self.busy, self.unrendered, self.n = set(), set(), {}, 0
+
+    def fresh(self):
+        self.n += 1
+        return 'rs_t_%d' % self.n
+
+    def typ(self, ty):
+        """name of a C type equivalent to the Rust type `ty` (None: this renderer does not know the type)"""
+        ty = ' '.join(ty.split())
+        ty = re.sub(r"&\s*'\w+\s*", '&', ty)
+        if ty in self.cache:
+            return self.cache[ty]
+        r = self.typ_(ty)
+        if r is None:
+            self.unrendered.setdefault(ty, 0)
+            self.unrendered[ty] += 1
+        else:
+            self.cache[ty] = r
+        return r
+
+    def typ_(self, ty):
+        m = re.match(r'(?:core::option::|std::option::)?Option\s*<\s*(.*)>$', ty)
+        if m:  # only the null-pointer-optimised forms are FFI-safe: Option<fn>, Option<&T>, Option<NonNull<T>>
+            inner = m.group(1).strip()
+            if re.match(r'(?:unsafe\s+)?(?:extern\s*(?:"C"\s*)?)?fn\b', inner) or inner.startswith('&') or re.match(r'(?:\w+::)*NonNull\s*<', inner):
+                return self.typ(inner)
+            return None
+        m = re.match(r'(?:\w+::)*NonNull\s*<\s*(.*)>$', ty)
+        if m:
+            return self.typ('*mut ' + m.group(1))
+        for pre, const in (('*const ', True), ('*mut ', False), ('&mut ', False), ('&', True)):
+            if ty.startswith(pre):
+                t = self.typ(ty[len(pre):])
+                if t is None:
+                    return None
+                name = self.fresh()
+                self.out.append('typedef %s%s *%s; /* %s */' % (t, ' const' if const else '', name, ty))
+                return name
+        if ty.startswith('[') and ty.endswith(']'):
+            parts = split_top(ty[1:-1], ';')
+            if len(parts) != 2:
+                return None
+            t = self.typ(parts[0])
+            mn = re.match(r'(0[xX][0-9a-fA-F_]+|0[bB][01_]+|0[oO][0-7_]+|[0-9][0-9_]*)(?:usize|u32|u64|i32)?$', parts[1].strip())
+            if t is None or t == 'void' or not mn:
+                return None
+            n = int(mn.group(1).replace('_', ''), 0)
+            name = self.fresh()
+            self.out.append('typedef %s %s[%d]; /* %s */' % (t, name, n, ty))
+            return name
+        m = re.match(r'(?:unsafe\s+)?(?:extern\s*(?:"C"\s*)?)?fn\s*\(', ty)
+        if m:
+            d, e = 1, m.end()
+            while d and e < len(ty):
+                d += ty[e] == '('
+                d -= ty[e] == ')'
+                e += 1
+            rest = ty[e:].strip()
+            ret = rest[2:].strip() if rest.startswith('->') else '()' if not rest else None
+            if ret is None:
+                return None
+            ps = []
+            for p_ in split_top(ty[m.end():e - 1].replace('->', '\x00')):
+                p_ = p_.replace('\x00', '->')
+                mm = re.match(r'(?:mut\s+)?\w+\s*:(?!:)\s*(.*)$', p_)  # `name: T` is allowed in fn-pointer types
+                ps.append(self.typ(mm.group(1) if mm else p_))
+            rt = self.typ(ret)
+            if rt is None or None in ps or 'void' in ps:
+                return None
+            name = self.fresh()
+            self.out.append('typedef %s (*%s)(%s); /* %s */' % (rt, name, ', '.join(ps) or 'void', ty))
+            return name
+        base = ty.split('::')[-1] if re.match(r'[\w:]+$', ty) else ty
+        if base != ty:
+            return self.typ(base)
+        if ty in self.structs:
+            return 'struct rs_%s' % ty if self.define(ty) else None
+        return None
+
+    def define(self, name):
+        """emit `struct rs_<name> {...}` (once; nested by-value structs first). False: a field cannot be rendered."""
+        if name in self.done:
+            return True
+        if name in self.busy:
+            return False
+        self.busy.add(name)
+        fields = []
+        for fn_, fty in self.structs[name]['fields']:
+            bare = ' '.join(fty.split())
+            # a pointer to a mirrored struct needs only the forward declaration (and must not recurse: self-referential structs)
+            mp = re.match(r"(\*const |\*mut |&mut |&)(\w+)$", bare)
+            if mp and mp.group(2) in self.structs and mp.group(2) not in self.done:
+                t = self.fresh()
+                self.out.append('typedef struct rs_%s%s *%s; /* %s */' % (mp.group(2), ' const' if mp.group(1) in ('*const ', '&') else '', t, bare))
+            else:
+                t = self.typ(fty)
+            if t is None or t == 'void':
+                self.busy.discard(name)
+                self.unrendered.setdefault('struct %s (field %s: %s)' % (name, fn_, fty), 1)
+                return False
+            fields.append((t, fn_))
+        self.out.append('struct rs_%s { /* #[repr(C)] pub struct %s */' % (name, name))
+        for t, fn_ in fields:
+            self.out.append('    %s %s;' % (t, fn_))
+        self.out.append('};')
+        self.busy.discard(name)
+        self.done.add(name)
+        return True
+
+
+CROSS_CXX = r'''
+/* type classification without any header of a C++ library (none exists here for a foreign target): compiler builtins only */
+struct vf_none;
+template <class T> struct vf_rcv { typedef T type; };
+template <class T> struct vf_rcv<T const> { typedef T type; };
+template <class T> struct vf_rcv<T volatile> { typedef T type; };
+template <class T> struct vf_rcv<T const volatile> { typedef T type; };
+template <class T, class = void> struct vf_size2 { static const unsigned long long value = 0; }; /* incomplete type */
+template <class T> struct vf_size2<T, decltype(void(sizeof(T)))> { static const unsigned long long value = sizeof(T); };
+template <class T, bool Skip = __is_void(T) || __is_function(T)> struct vf_size { static const unsigned long long value = 0; };
+template <class T> struct vf_size<T, false> : vf_size2<T> {};
+/* 0 void, 1 bool, 2 integer or enum, 3 floating, 4 pointer, 5 array, 6 struct/union, 7 other */
+template <class T0> struct vf_cls
+{
+    typedef typename vf_rcv<T0>::type T;
+    static const int value = __is_void(T) ? 0 : __is_same(T, bool) ? 1 : (__is_integral(T) || __is_enum(T)) ? 2 : __is_floating_point(T) ? 3
+                             : __is_pointer(T) ? 4 : __is_array(T) ? 5 : (__is_class(T) || __is_union(T)) ? 6 : 7;
+};
+template <class T> struct vf_deref { typedef vf_none type; };
+template <class T> struct vf_deref<T *> { typedef typename vf_rcv<T>::type type; };
+template <class T> struct vf_elem { typedef vf_none type; static const unsigned long long n = 0; };
+template <class T, decltype(sizeof(0)) N> struct vf_elem<T[N]> { typedef T type; static const unsigned long long n = N; };
+template <class R, class C> struct vf_ok_;
+template <bool A, class R, class C> struct vf_arr_ok { static const bool value = true; };
+template <class R, class C> struct vf_arr_ok<true, R, C>
+{
+    static const bool value = vf_elem<R>::n == vf_elem<C>::n && vf_ok_<typename vf_elem<R>::type, typename vf_elem<C>::type>::value;
+};
+/* same rule as the executed host comparison: class and size equal; pointee sizes compared when both are known and > 1; arrays by
+   extent and element; signedness, constness and same-width aliases are not distinguished */
+template <class R0, class C0> struct vf_ok_
+{
+    typedef typename vf_rcv<R0>::type R;
+    typedef typename vf_rcv<C0>::type C;
+    static const unsigned long long pr = vf_size<typename vf_deref<R>::type>::value, pc = vf_size<typename vf_deref<C>::type>::value;
+    static const bool value = vf_cls<R>::value == vf_cls<C>::value && vf_size<R>::value == vf_size<C>::value &&
+                              (vf_cls<R>::value != 4 || pr <= 1 || pc <= 1 || pr == pc) && vf_arr_ok<vf_cls<R>::value == 5 && vf_cls<C>::value == 5, R, C>::value;
+};
+/* the defaulted arguments are there to be PRINTED by the compiler when the assertion fails: class and size on both sides */
+template <class RUST, class C, int RUST_CLASS = vf_cls<RUST>::value, int C_CLASS = vf_cls<C>::value,
+          unsigned long long RUST_SIZE = vf_size<typename vf_rcv<RUST>::type>::value, unsigned long long C_SIZE = vf_size<typename vf_rcv<C>::type>::value,
+          unsigned long long RUST_POINTEE = vf_ok_<RUST, C>::pr, unsigned long long C_POINTEE = vf_ok_<RUST, C>::pc>
+struct vf_ok { static const bool value = vf_ok_<RUST, C>::value; };
+template <long long RUST, long long C> struct vf_eq { static const bool value = RUST == C; };
+template <class T0> struct vf_sgn
+{
+    typedef typename vf_rcv<T0>::type T;
+    static const int value = (__is_integral(T) && !__is_same(T, bool)) ? (__is_signed(T) ? 1 : 2) : 0;
+};
+template <unsigned K, class... A> struct vf_nth { typedef vf_none type; };
+template <class H, class... T> struct vf_nth<0, H, T...> { typedef H type; };
+template <unsigned K, class H, class... T> struct vf_nth<K, H, T...> : vf_nth<K - 1, T...> {};
+template <class F> struct vf_fn { static const int arity = -1; typedef vf_none ret; template <unsigned K> struct p { typedef vf_none type; }; };
+#define VF_FN(SUFFIX, BASE) \
+    template <class R, class... A> struct vf_fn<R (*)(A...) SUFFIX> { static const int arity = BASE + (int)sizeof...(A); typedef R ret; template <unsigned K> struct p { typedef typename vf_nth<K, A...>::type type; }; }; \
+    template <class R, class... A> struct vf_fn<R (*)(A..., ...) SUFFIX> { static const int arity = 1000 + BASE + (int)sizeof...(A); typedef R ret; template <unsigned K> struct p { typedef typename vf_nth<K, A...>::type type; }; };
+VF_FN(, 0)
+#if __cplusplus >= 201703L
+VF_FN(noexcept, 0)
+#endif
+'''
+
+
+def gen_cross(structs, fns, statics, cfields, real, headers, drop=()):
+    """Two translation units (C: layouts; C++: types of fields, parameters, results, statics) that hold one static assertion per
+    line. Returns (c_text, cxx_text, cmap, xmap, reveal, unrendered): the maps give for every line number the (item, what) it
+    belongs to, `reveal` for every C assertion the two expressions that were compared."""
+    rr = RsRender(structs, real)
+    inc = ['#include "a/%s"' % h for h in headers]
+    sane = ['_Static_assert(sizeof(rs_usize) == sizeof(void *) && sizeof(rs_isize) == sizeof(void *), "VFX|renderer|usize-is-not-pointer-wide");',
+            '_Static_assert(sizeof(rs_f32) == 4 && sizeof(rs_f64) == 8 && sizeof(rs_bool) == 1 && sizeof(rs_u64) == 8 && sizeof(rs_u32) == 4 && sizeof(rs_u16) == 2 && sizeof(rs_u8) == 1, "VFX|renderer|exact-width-type-has-another-width");',
+            '_Static_assert(sizeof(rs_real) == %d, "VFX|renderer|real-has-another-width");' % real]
+    c_as, x_as = [], []  # (item, what, line)
+    reveal = {}
+    for s in structs:
+        n = s['name']
+        if n not in cfields or n in drop:
+            continue
+        if not rr.define(n):
+            continue
+        R, C = 'struct rs_%s' % n, 'struct a_%s' % n
+        for what, er, ec in (('size', 'sizeof(%s)' % R, 'sizeof(%s)' % C), ('align', '_Alignof(%s)' % R, '_Alignof(%s)' % C)):
+            c_as.append((n, what, '_Static_assert(%s == %s, "VFX|%s|%s");' % (er, ec, n, what)))
+            reveal[(n, what)] = (er, ec)
+        for (rf, rty), cf in zip(s['fields'], cfields[n]):
+            for what, er, ec in (('field-%s-offset' % rf, '__builtin_offsetof(%s, %s)' % (R, rf), '__builtin_offsetof(%s, %s)' % (C, cf)),
+                                 ('field-%s-size' % rf, 'sizeof(((%s *)0)->%s)' % (R, rf), 'sizeof(((%s *)0)->%s)' % (C, cf))):
+                c_as.append((n, what, '_Static_assert(%s == %s, "VFX|%s|%s");' % (er, ec, n, what)))
+                reveal[(n, what)] = (er, ec)
+            x_as.append((n, 'field-%s-type' % rf, 'static_assert(vf_ok<decltype(((%s *)0)->%s), decltype(((%s *)0)->%s)>::value, "VFX|%s|field-%s-type");' % (R, rf, C, cf, n, rf)))
+    for f in fns:
+        n = f['name']
+        if n in drop:
+            continue
+        rt = rr.typ(f['ret'])
+        pts = [rr.typ(p[1]) for p in f['params']]
+        if rt is None or None in pts:
+            rr.unrendered.setdefault('fn %s' % n, 1)
+            continue
+        F = 'vf_fn<decltype(&%s)>' % n
+        x_as.append((n, 'arity', 'static_assert(vf_eq<%d, %s::arity>::value, "VFX|%s|arity");' % (len(pts), F, n)))
+        x_as.append((n, 'return-type', 'static_assert(vf_ok<%s, %s::ret>::value, "VFX|%s|return-type");' % (rt, F, n)))
+        for k, pt in enumerate(pts):
+            x_as.append((n, 'param%d-type' % k, 'static_assert(vf_ok<%s, %s::p<%d>::type>::value, "VFX|%s|param%d-type");' % (pt, F, k, n, k)))
+    for s in statics:
+        n = s['name']
+        if n in drop:
+            continue
+        t = rr.typ(s['ty'])
+        if t is None:
+            rr.unrendered.setdefault('static %s' % n, 1)
+            continue
+        x_as.append((n, 'static-type', 'static_assert(vf_ok<%s, decltype(%s)>::value, "VFX|%s|static-type");' % (t, n, n)))
+        x_as.append((n, 'static-align', 'static_assert(vf_eq<alignof(%s), alignof(decltype(%s))>::value, "VFX|%s|static-align");' % (t, n, n)))
+        x_as.append((n, 'static-signedness', 'static_assert(vf_eq<vf_sgn<%s>::value, vf_sgn<decltype(%s)>::value>::value, "VFX|%s|static-signedness");' % (t, n, n)))
+    pre = inc + rr.out
+
+    def unit(head, asserts):
+        lines = '\n'.join(head).split('\n')
+        lmap = {}
+        for item, what, line in asserts:
+            lines.append(line)
+            lmap[len(lines)] = (item, what)
+        return '\n'.join(lines) + '\n', lmap
+    ctext, cmap = unit(pre + sane, c_as)
+    xtext, xmap = unit(pre + sane + [CROSS_CXX], x_as)
+    return ctext, xtext, cmap, xmap, reveal, '\n'.join(pre) + '\n', dict(rr.unrendered)
+
+
+CROSS_CLS = {0: 'void', 1: 'bool', 2: 'integer', 3: 'floating', 4: 'pointer', 5: 'array', 6: 'struct', 7: 'other'}
+
+
+def cross_diags(out, src):
+    """clang diagnostics of one translation unit -> ([(item, what, requirement text)] failed assertions, [(line, message)] other errors in
+    the unit itself, [message] errors elsewhere)"""
+    failed, other, elsewhere = [], [], []
+    base = os.path.basename(src)
+    for l in out.splitlines():
+        m = re.match(r'(.*?):(\d+):\d+: (?:fatal )?error: (.*)$', l)
+        if not m:
+            if re.match(r'(clang|error)\b.*error', l) or l.startswith('error:'):
+                elsewhere.append(l[:300])
+            continue
+        fa = re.search(r"static[_ ]assert(?:ion)? failed(?: due to requirement '(.*)')?:? *\"?VFX\|([^|\"]+)\|([^|\"]+)", m.group(3))
+        if fa:
+            failed.append((fa.group(2), fa.group(3), fa.group(1) or ''))
+        elif os.path.basename(m.group(1)) == base:
+            other.append((int(m.group(2)), m.group(3)[:300]))
+        else:
+            elsewhere.append('%s:%s: %s' % (m.group(1), m.group(2), m.group(3)[:300]))
+    return failed, other, elsewhere
+
+
+def cross_targets(ctx, outdir, viols, stats, brs_path):
+    """The C ABI of the CURRENT headers as clang lays it out FOR OTHER TARGETS, compared at compile time with what the binding declares.
+    Every run of the other monitors happens on one data model (x86-64 SysV, LP64); a header change that is an equivalent mutant there
+    but not on another data model (seeded change C20-K: a_size spelled `unsigned long` - 4 bytes on 64-bit Windows, where usize has 8)
+    is invisible to all of them. clang, however, is a cross compiler front end for every back end it was built with, and
+    sizeof/_Alignof/offsetof and the types of declarations are front-end knowledge: no SDK, no C library, no execution is needed.
+    For every (target, feature set) two generated units are compiled with -fsyntax-only:
+      C   - every public header + `struct rs_<name>` = the C rendering of each #[repr(C)] mirror (usize -> __UINTPTR_TYPE__, uN/iN ->
+            __UINTn_TYPE__/__INTn_TYPE__, c_int -> int, real -> double/float, pointers, arrays, nested mirrors), laid out by clang for
+            the target, with _Static_assert(sizeof / _Alignof / offsetof / member size == that of struct a_<name>);
+      C++ - the same plus, through templates over decltype(&a_fn) (compiler builtins only, no library header), arity and for the result
+            and every parameter class + size (+ pointee size) against the rendering of the Rust declaration; the same rule for every
+            mirrored field's type and every foreign static (also alignment, signedness).
+    A failed assertion is a violation abi/cross-target/<target>/<item>/<what>. A target clang has no back end for, or for which the
+    headers alone do not compile with the stub <math.h>/<string.h>, is skipped and counted - never a violation."""
+    t0 = time.time()
+    REPO = ctx['REPO']
+    cov = dict(note='COMPILE-TIME measurements by clang used as a cross front end (-fsyntax-only): sizes, alignments, offsets and declaration types '
+                    'as clang computes them for the named foreign target from the current headers, against a C rendering of the Rust declarations '
+                    'laid out by the same compiler for the same target. Nothing is executed on or for these targets, no foreign rustc is involved '
+                    '(Rust side = the Rust reference\'s definition of usize/uN/c_int/repr(C)), and clang stands in for the target\'s own C compiler.',
+               reference_target=CROSS_REFERENCE, targets_compiled=[], assertions_per_target={}, skipped_targets={}, failed_assertions=0)
+    stats['cross_targets'] = cov
+    clang, clangxx = shutil.which('clang'), shutil.which('clang++')
+    if not clang or not clangxx:
+        cov['status'] = 'NOT RUN: clang / clang++ not found on this host'
+        for t, _, _ in CROSS_TARGETS:
+            cov['skipped_targets'][t] = 'no clang on this host'
+        return
+    cov['compiler'] = sh([clang, '--version']).stdout.splitlines()[0].strip()
+    backends = set(re.findall(r'^\s+([\w-]+)\s+- ', sh([clang, '-print-targets']).stdout, flags=re.M))
+    odir = os.path.join(outdir, 'cross-targets')
+    stub = os.path.join(odir, 'stub')
+    os.makedirs(stub, exist_ok=True)
+    for h in ('math.h', 'string.h', 'stdlib.h', 'stdio.h'):  # declarations only are needed; the target's C library headers do not exist here
+        open(os.path.join(stub, h), 'w').write('/* stub: the public headers are only parsed for their declarations */\n')
+    text = open(os.path.join(REPO, 'src', 'lib.rs')).read()
+    structs, fns, statics = parse_librs(text)
+    headers = sorted(h for h in os.listdir(os.path.join(REPO, 'include', 'a')) if h.endswith('.h'))
+    feats = feature_sets(brs_path)
+    from concurrent.futures import ThreadPoolExecutor
+    # ---- C field names: the host compiler's DWARF (names and order do not depend on the target)
+    hdr_text = ''.join(open(os.path.join(REPO, 'include', 'a', h), errors='replace').read() for h in headers)
+    have = [s['name'] for s in structs if re.search(r'struct\s+a_%s\b' % s['name'], hdr_text)]
+    sc = os.path.join(odir, 'structs.c')
+    with open(sc, 'w') as f:
+        f.write(''.join('#include "a/%s"\n' % h for h in headers) + ''.join('struct a_%s vf_var_%s;\n' % (n, n) for n in have))
+    r = sh(['gcc', '-g', '-O0', '-w', '-c', sc, '-o', os.path.join(odir, 'structs.o'), '-I' + os.path.join(REPO, 'include')] + feats[0][2])
+    if r.returncode:
+        raise ctx['Inconclusive']('cross-target monitor: the public headers do not compile on the host with the flags of build.rs: ' + r.stdout[-1200:])
+    with ThreadPoolExecutor(max_workers=8) as ex:
+        fl = list(ex.map(lambda n: gdb_fields(os.path.join(odir, 'structs.o'), 'a_' + n), have))
+    cfields = {n: f_ for n, f_ in zip(have, fl) if f_}
+    cov['structs_without_c_field_list'] = sorted(set(have) - set(cfields))
+
+    def flags(triple, extra, defs):
+        return ['--target=' + triple, '-ffreestanding', '-nostdlibinc', '-fsyntax-only', '-ferror-limit=0', '-fno-caret-diagnostics', '-w',
+                '-I' + os.path.join(REPO, 'include'), '-isystem', stub] + extra + defs
+
+    def compile_(cxx, src, fl_):
+        return sh(([clangxx, '-std=c++17', '-x', 'c++'] if cxx else [clang, '-x', 'c']) + [src] + fl_)
+    # ---- headers-only units (decide which targets are kept)
+    hc, hx = os.path.join(odir, 'headers.c'), os.path.join(odir, 'headers.cc')
+    for p_ in (hc, hx):
+        open(p_, 'w').write(''.join('#include "a/%s"\n' % h for h in headers))
+    # ---- reference target first: items that cannot even be stated on this host's data model (function not declared in the headers,
+    #      ...) are the business of the executed host monitors and are left out of the units
+    units = {}
+    drop = {}
+    for tag, real, defs in feats:
+        drop[tag] = set()
+        for attempt in range(4):
+            ctext, xtext, cmap, xmap, reveal, pre, unrendered = gen_cross(structs, fns, statics, cfields, real, headers, drop[tag])
+            cp, xp = os.path.join(odir, 'cross-%s.c' % tag), os.path.join(odir, 'cross-%s.cc' % tag)
+            open(cp, 'w').write(ctext)
+            open(xp, 'w').write(xtext)
+            bad = set()
+            for cxx, src, lmap in ((False, cp, cmap), (True, xp, xmap)):
+                r = compile_(cxx, src, flags(CROSS_REFERENCE, [], defs))
+                _, other, elsewhere = cross_diags(r.stdout, src)
+                if elsewhere and not other:
+                    raise ctx['Inconclusive']('cross-target monitor: the generated unit does not compile for the reference target %s: %s' % (CROSS_REFERENCE, ' | '.join(elsewhere[:4])))
+                for ln, msg in other:
+                    if ln not in lmap:
+                        raise ctx['Inconclusive']('cross-target monitor: the generated prelude does not compile for the reference target (%s line %d: %s)' % (os.path.basename(src), ln, msg))
+                    bad.add(lmap[ln][0])
+            if not bad:
+                break
+            drop[tag] |= bad
+        else:
+            raise ctx['Inconclusive']('cross-target monitor: generated units still do not compile for the reference target after dropping %s' % sorted(drop[tag]))
+        units[tag] = dict(c=cp, cxx=xp, cmap=cmap, xmap=xmap, reveal=reveal, pre=pre, defs=defs, real=real)
+        cov.setdefault('assertions_per_unit', {})[tag] = dict(c=len(cmap), cxx=len(xmap))
+        if drop[tag]:
+            cov.setdefault('items_left_to_the_host_monitors', {})[tag] = sorted(drop[tag])
+        if unrendered:
+            cov.setdefault('rust_types_not_rendered', {})[tag] = sorted(unrendered)
+
+    def one(job):
+        (triple, backend, extra), (tag, real, defs) = job
+        u = units[tag]
+        res = dict(triple=triple, tag=tag, skip=None, failed=[], errors=[], n=0)
+        if backend not in backends:
+            res['skip'] = 'clang -print-targets lists no back end "%s"' % backend
+            return res
+        fl_ = flags(triple, extra, defs)
+        for cxx, src in ((False, hc), (True, hx)):
+            r = compile_(cxx, src, fl_)
+            if r.returncode:
+                res['skip'] = 'the public headers alone do not compile as %s for this target with the stub headers: %s' % (
+                    'C++' if cxx else 'C', ' | '.join(l for l in r.stdout.splitlines() if 'error' in l)[:400] or r.stdout[-300:])
+                return res
+        for cxx, src, lmap in ((False, u['c'], u['cmap']), (True, u['cxx'], u['xmap'])):
+            r = compile_(cxx, src, fl_)
+            failed, other, elsewhere = cross_diags(r.stdout, src)
+            res['n'] += len(lmap)
+            if r.returncode and not failed and not other and not elsewhere:
+                elsewhere = [r.stdout[-300:]]
+            res['failed'] += [(item, what, req, cxx) for item, what, req in failed]
+            res['errors'] += [(lmap.get(ln, ('generated-unit', 'line-%d' % ln)), msg) for ln, msg in other] + [(('generated-unit', 'elsewhere'), m_) for m_ in elsewhere]
+        # the values behind failed C assertions (clang prints them only for templates): a second unit whose diagnostics carry them
+        want = [(item, what) for item, what, req, cxx in res['failed'] if not cxx and (item, what) in u['reveal']]
+        res['values'] = {}
+        if want:
+            rp = os.path.join(odir, 'reveal-%s-%s.c' % (tag, triple))
+            lines = u['pre'].split('\n')
+            if lines[-1] == '':
+                lines.pop()
+            lm = {}
+            for k, key in enumerate(want):
+                for side, expr in zip(('rust', 'c'), u['reveal'][key]):
+                    lines.append('char (*vf_reveal_%d_%s)[1 + (%s)] = 1;' % (k, side, expr))
+                    lm[len(lines)] = (key, side)
+            open(rp, 'w').write('\n'.join(lines) + '\n')
+            r = sh([clang, '-x', 'c', rp] + [x for x in fl_ if x != '-w'] + ['-Wno-everything', '-Werror=int-conversion'])
+            for l in r.stdout.splitlines():
+                m = re.match(r".*?:(\d+):\d+: error: .*'char \(\*\)\[(\d+)\]'", l)
+                if m and int(m.group(1)) in lm:
+                    key, side = lm[int(m.group(1))]
+                    res['values'].setdefault(key, {})[side] = int(m.group(2)) - 1
+        return res
+    jobs = [(t, f_) for t in CROSS_TARGETS for f_ in feats]
+    with ThreadPoolExecutor(max_workers=8) as ex:
+        results = list(ex.map(one, jobs))
+    # ---- verdicts
+    grouped = {}  # (tag, item, what) -> {triple: detail}
+    for res in results:
+        t, tag = res['triple'], res['tag']
+        if res['skip']:
+            cov['skipped_targets'].setdefault(t, res['skip'])
+            continue
+        rbad = sorted(set(what for item, what, req, cxx in res['failed'] if item == 'renderer'))
+        if rbad:
+            # e.g. a target whose `double` has 4 bytes: the C rendering of f64 does not stand for the Rust type there - not a statement about the binding
+            cov['skipped_targets'].setdefault(t, 'the C rendering of the Rust primitive types is not valid for this target (%s)' % ', '.join(rbad))
+            continue
+        if t not in cov['targets_compiled']:
+            cov['targets_compiled'].append(t)
+        cov['assertions_per_target'][t] = cov['assertions_per_target'].get(t, 0) + res['n']
+        stats['evaluations'] += res['n']
+        stats['distinct'].add(('cross-target', t, tag))
+        arity_bad = set(item for item, what, req, cxx in res['failed'] if what == 'arity')
+        for item, what, req, cxx in res['failed']:
+            if item in arity_bad and what.startswith('param'):
+                continue
+            if cxx:
+                m = re.search(r'vf_ok<(.*), (\d+), (\d+), (\d+), (\d+), (\d+), (\d+)>::value', req)
+                me = re.search(r'vf_eq<(-?\d+), (-?\d+)>::value', req)
+                if m:
+                    tys = m.group(1)
+                    detail = 'rendering of the Rust declaration vs C declaration <%s>: Rust %s of %s bytes, C %s of %s bytes' % (
+                        tys, CROSS_CLS.get(int(m.group(2)), '?'), m.group(4), CROSS_CLS.get(int(m.group(3)), '?'), m.group(5))
+                    if m.group(2) == m.group(3) and m.group(4) == m.group(5):
+                        detail += (' pointing to %s / %s bytes' % (m.group(6), m.group(7))) if m.group(2) == '4' and m.group(6) != m.group(7) else ' (array extent or element type differs)'
+                elif me:
+                    detail = 'Rust %s, C %s' % (me.group(1), me.group(2))
+                else:
+                    detail = req
+            else:
+                v = res['values'].get((item, what), {})
+                detail = 'Rust mirror as laid out for this target %s, C %s' % (v.get('rust', '?'), v.get('c', '?'))
+            grouped.setdefault((tag, item, what), {})[t] = detail
+        for (item, what), msg in res['errors']:
+            grouped.setdefault((tag, item, 'does-not-compile-for-this-target'), {}).setdefault(t, 'clang: ' + msg)
+    for (tag, item, what), per in sorted(grouped.items()):
+        cov['failed_assertions'] += len(per)
+        defs = ' '.join(units[tag]['defs']) or 'none'
+        if CROSS_REFERENCE in per:
+            # visible on this host's own data model too (the executed monitors report it): one key, the other targets named in the message
+            tl = [CROSS_REFERENCE]
+            also = ' (the same assertion fails for %d other target(s): %s)' % (len(per) - 1, ', '.join(sorted(x for x in per if x != CROSS_REFERENCE))) if len(per) > 1 else ''
+        else:
+            tl, also = sorted(per), ''
+        for t in tl:
+            viols.append(dict(key='abi/cross-target/%s/%s/%s' % (t, item, what), config=tag,
+                              msg='compiled (not executed) by %s for %s, C flags of build.rs for %s: %s - %s %s: %s%s' % (
+                                  cov.get('compiler', 'clang'), t, tag, defs, item, what, per[t], also)))
+    cov['targets_compiled'].sort()
+    cov['wall_s'] = round(time.time() - t0, 2)
+    if not cov['targets_compiled']:
+        raise ctx['Inconclusive']('cross-target monitor: no target could be compiled (%s)' % '; '.join('%s: %s' % kv for kv in sorted(cov['skipped_targets'].items()))[:1500])
+    if cov.get('rust_types_not_rendered'):
+        raise ctx['Inconclusive']('cross-target monitor: Rust types of the binding it cannot render in C (declarations not compared for foreign targets): %s' % cov['rust_types_not_rendered'])
 
 
 def one_width(real, tag, outdir, ctx, viols, stats, samples, tier='quick', seed=1, creal=None):
@@ -1182,6 +1716,11 @@ def run(prop, tier, seed, outdir, replay, ctx):
     brs = parse_build_rs(os.path.join(ctx['REPO'], 'build.rs'))
     stats['build_rs'] = brs
     try:
+        # compile-time only, independent of the executed monitors below: its own problems must not keep those from running
+        cross_targets(ctx, outdir, viols, stats, os.path.join(ctx['REPO'], 'build.rs'))
+    except ctx['Inconclusive'] as e:
+        inconclusive.append(str(e)[:3000])
+    try:
         simulated_targets(ctx, outdir, viols, stats, os.path.join(ctx['REPO'], 'build.rs'))
         for real, tag in widths:
             creal = real
@@ -1216,7 +1755,7 @@ def run(prop, tier, seed, outdir, replay, ctx):
                     unexercised_wrappers=sorted(stats['unexercised_wrappers']), histories_per_struct_and_width=NHIST[tier],
                     wrapper_twin_calls={t: dict(sorted(d['counts'].items())) for t, d in stats['twin'].items()},
                     wrapper_twin_counterpart={n: c for d in stats['twin'].values() for n, c in sorted(d['cfn'].items())},
-                    wrapper_histories={t: d['histories'] for t, d in stats['twin'].items()}, simulated_target_predefines=stats.get('simulated_targets'), sanitizer_reports=sum(1 for v in viols if 'sanitizer' in v['key']))
+                    wrapper_histories={t: d['histories'] for t, d in stats['twin'].items()}, simulated_target_predefines=stats.get('simulated_targets'), cross_target_layouts=stats.get('cross_targets'), sanitizer_reports=sum(1 for v in viols if 'sanitizer' in v['key']))
     if replay:
         rp = json.load(open(replay))
         hit = [v for v in viols if v['key'] == rp['key']]
